@@ -534,6 +534,36 @@ def dynamic_slice(ins, params):
   return TermArr(out, sym.sp)
 
 
+def dynamic_update_slice(ins, params):
+  """operand with `update` written at (clamped, possibly symbolic) start indices: element j of the result is the update element
+  whose position lands on j if there is one (decided by equalities on the symbolic starts), else the operand element."""
+  operand, update, *starts = ins
+  sym = next(x for x in ins if isinstance(x, TermArr))
+  op = operand.a if isinstance(operand, TermArr) else sym._other(operand)
+  up = update.a if isinstance(update, TermArr) else sym._other(update)
+  st = []
+  for s, dim, size in zip(starts, op.shape, up.shape):
+    v = s.a.reshape(-1)[0] if isinstance(s, TermArr) else np.asarray(s).item()
+    st.append(_clamp_index(v, 0, dim - size))
+  ranges = []
+  for v, dim, size in zip(st, op.shape, up.shape):
+    ranges.append([v] if not isz(v) else list(range(0, dim - size + 1)))
+  out = np.empty(op.shape, dtype=object)
+  for idx in np.ndindex(*op.shape):
+    acc = op[idx]
+    for combo in itertools.product(*ranges):
+      rel = tuple(i - c for i, c in zip(idx, combo))
+      if any(r < 0 or r >= sz for r, sz in zip(rel, up.shape)):
+        continue
+      cond = True
+      for v, c in zip(st, combo):
+        if isz(v):
+          cond = s_and(cond, v == c)
+      acc = s_ite(cond, up[rel], acc)
+    out[idx] = acc
+  return TermArr(out, sym.sp)
+
+
 def apply_uf(prim_name, params, ins, sp):
   """Symbolic rule for the uninterpreted primitives uf / ufd (elementwise z3 functions)."""
   name = params['name'] if prim_name == 'uf' else f"{params['name']}__d{params['index']}"
